@@ -43,7 +43,7 @@ impl Inv {
         }
     }
     pub fn describe(&self) -> String {
-        let mut s = format!("rsbdd <{}> `{}`", ["--evaluate", "file", "stdin", "named pipe", "/dev/stdin", "stdin in pieces", "file named -", "stdin = a regular file read from an offset"][self.channel as usize % 8], self.text);
+        let mut s = format!("rsbdd <{}> `{}`", ["--evaluate", "file", "stdin", "named pipe", "/dev/stdin", "stdin in pieces", "file named -", "stdin = a regular file read from an offset", "stdin = a terminal"][self.channel as usize % 9], self.text);
         if let Some(o) = &self.ordering {
             s.push_str(&format!(" -o <{:?}>", o));
         }
@@ -69,11 +69,11 @@ pub fn invoke(ctx: &Ctx, inv: &Inv, tag: &str) -> RunOut {
     let mut args: Vec<String> = Vec::new();
     let mut stdin: Option<Vec<u8>> = None;
     let mut feed = cli::Feed::default();
-    match inv.channel % 8 {
+    match inv.channel % 9 {
         0 => args.push(format!("--evaluate={}", inv.text)),
         c => {
-            // 1 regular file, 2 stdin, 3 named pipe, 4 /dev/stdin, 5 stdin in small pieces, 6 a file named `-`, 7 stdin is a regular file positioned after a consumed line
-            let mode = [0u8, 0, 1, 3, 4, 5, 6, 7][c as usize];
+            // 1 regular file, 2 stdin, 3 named pipe, 4 /dev/stdin, 5 stdin in small pieces, 6 a file named `-`, 7 stdin is a regular file positioned after a consumed line, 8 stdin is a terminal
+            let mode = [0u8, 0, 1, 3, 4, 5, 6, 7, 8][c as usize];
             let plan = super::common::plan_input(mode, &dir, "formula.txt", inv.text.as_bytes());
             if let Some(p) = plan.path_arg {
                 args.push(p);
@@ -84,7 +84,7 @@ pub fn invoke(ctx: &Ctx, inv: &Inv, tag: &str) -> RunOut {
     }
     if let Some(o) = &inv.ordering {
         let p = dir.join(super::common::hostile_file_name(o.len(), "ordering.txt"));
-        if inv.channel % 8 == 3 || inv.channel % 8 == 5 {
+        if inv.channel % 9 == 3 || inv.channel % 9 == 5 {
             // the ordering through a named pipe as well
             feed.fifos.push((p.clone(), o.as_bytes().to_vec(), [1usize, 5, 100][o.len() % 3]));
         } else {
@@ -105,6 +105,10 @@ pub fn invoke(ctx: &Ctx, inv: &Inv, tag: &str) -> RunOut {
     if let Some(b) = inv.b {
         args.push("-b".into());
         args.push(b.to_string());
+    }
+    // every fourth invocation (by its text and options) prints to a TERMINAL instead of a pipe
+    if (crate::util::hash_str(&inv.text) ^ inv.channel as u64 ^ (inv.t as u64) << 3 ^ (inv.v as u64) << 4) % 4 == 1 {
+        feed.stdout_tty = true;
     }
     let out = cli::run_fed(&ctx.bin("rsbdd"), &args, stdin.as_deref(), &feed, Some(&dir), Some((20_000_000, 100_000)), Duration::from_secs(60));
     let _ = std::fs::remove_dir_all(&dir);
@@ -182,6 +186,27 @@ pub fn ordering_names(content: &str) -> Option<Vec<String>> {
         }
     }
     Some(out)
+}
+
+/// every name token of an ordering file, repeats included, in file order
+pub fn ordering_tokens(content: &str) -> Option<Vec<String>> {
+    let toks = refsyn::tokenize(content).ok()?;
+    Some(toks.into_iter().filter_map(|t| if let Tok::Var(v) = t { Some(v) } else { None }).collect())
+}
+
+/// "Variables listed in the file are ordered as in the file": the listed names among `seq` come in
+/// an order the file shows. A name the file lists TWICE may count at either place (the statement
+/// does not say which occurrence decides), so the test is: one occurrence per name can be picked,
+/// left to right, in the order of `seq`.
+pub fn respects_some_reading(seq: &[String], file_tokens: &[String]) -> bool {
+    let mut from = 0usize;
+    for name in seq.iter().filter(|n| file_tokens.contains(n)) {
+        match file_tokens[from..].iter().position(|t| t == name) {
+            Some(p) => from += p + 1,
+            None => return false,
+        }
+    }
+    true
 }
 
 /// expected variable order: names of the ordering file first, then the formula's other names in text order
